@@ -28,8 +28,15 @@ struct DT
 {
     enum K { SC, STR, BUF, VEC, PAIR, TUPLE, MAP, STRUCT } k = SC;
     int sc = 0; // index into SCN
+    int alias = 0; // 0 = the SCN name itself; 1..4 = ALN[alias-1] (serializer-stack arithmetic types of the same representation class)
     std::vector<DT> kids;
 };
+// further arithmetic C++ types accepted by the serializer stack (is_arithmetic): bool, char, long long,
+// unsigned long long.  On the wire they are their sizeof-byte image, i.e. the representation class of
+// u8 (restricted to 0/1), i8, i64, u64.
+static const char *const ALN[4] = {"b8", "c8", "ll", "ull"};
+static const int ALSC[4] = {0, 1, 7, 6};
+static_assert(sizeof(bool) == 1 && sizeof(char) == 1 && sizeof(long long) == 8 && (char)-1 < 0, "bool/char/long long as modelled");
 static const char *const SCN[10] = {"u8", "i8", "u16", "i16", "u32", "i32", "u64", "i64", "f32", "f64"};
 static const int SCW[10] = {1, 1, 2, 2, 4, 4, 8, 8, 4, 8};
 static inline bool sc_signed(int sc) { return sc == 1 || sc == 3 || sc == 5 || sc == 7; }
@@ -66,6 +73,8 @@ static inline bool parse_dt(const std::string &s, size_t &i, DT &t)
     i = j;
     for (int k = 0; k < 10; k++)
         if (nm == SCN[k]) { t.k = DT::SC; t.sc = k; return true; }
+    for (int k = 0; k < 4; k++)
+        if (nm == ALN[k]) { t.k = DT::SC; t.sc = ALSC[k]; t.alias = k + 1; return true; }
     if (nm == "str") { t.k = DT::STR; return true; }
     if (nm == "buf") { t.k = DT::BUF; return true; }
     if (i >= s.size() || s[i] != '(') return false;
@@ -227,6 +236,15 @@ template <class T, class = void> struct conv;
 C09_SC(uint8_t, 0) C09_SC(int8_t, 1) C09_SC(uint16_t, 2) C09_SC(int16_t, 3) C09_SC(uint32_t, 4)
 C09_SC(int32_t, 5) C09_SC(uint64_t, 6) C09_SC(int64_t, 7) C09_SC(float, 8) C09_SC(double, 9)
 
+#define C09_AL(T, AL)                                                                                  \
+    template <> struct conv<T>                                                                         \
+    {                                                                                                  \
+        static std::string desc() { return ALN[AL]; }                                                  \
+        static T from(const DV &d) { return (T)d.bits; }                                               \
+        static DV to(const T &x) { uint64_t b = 0; memcpy(&b, &x, sizeof x); return DV::scalar(b); }   \
+    };
+C09_AL(bool, 0) C09_AL(char, 1) C09_AL(long long, 2) C09_AL(unsigned long long, 3)
+
 template <> struct conv<std::string>
 {
     static std::string desc() { return "str"; }
@@ -362,6 +380,29 @@ struct R3 // archive stack only: string, map, vector of user types
     typedef std::tuple<std::string, std::map<uint8_t, std::string>, std::vector<R1>> as_tuple;
 };
 
+// generic user types for the mechanically generated type grid (C09/grid.h)
+template <class A, class B> struct G2
+{
+    A a{};
+    B b{};
+    template <class R> void reflect(R &r) { r &a; r &b; }
+    template <class Ar> void serialize_reflect(Ar &ar) const { ar &a; ar &b; }
+    template <class Ar> void serialize_reflect(Ar &ar) { ar &a; ar &b; }
+    auto tied() { return std::tie(a, b); }
+    typedef std::tuple<A, B> as_tuple;
+};
+template <class A, class B, class C> struct G3
+{
+    A a{};
+    B b{};
+    C c{};
+    template <class R> void reflect(R &r) { r &a; r &b; r &c; }
+    template <class Ar> void serialize_reflect(Ar &ar) const { ar &a; ar &b; ar &c; }
+    template <class Ar> void serialize_reflect(Ar &ar) { ar &a; ar &b; ar &c; }
+    auto tied() { return std::tie(a, b, c); }
+    typedef std::tuple<A, B, C> as_tuple;
+};
+
 template <class T> struct conv<T, std::void_t<typename T::as_tuple>>
 {
     typedef typename T::as_tuple Tu;
@@ -382,6 +423,7 @@ struct stack_iface
     virtual ~stack_iface() {}
     virtual std::vector<std::string> descs() = 0;
     virtual bool has(const std::string &desc) = 0;
+    virtual size_t n_hand() = 0; // the first n_hand() descs are the hand-written family, the rest is the generated grid
     // values (by descriptor) -> bytes produced by the real writer
     virtual bytes encode_seq(const std::vector<std::string> &descs, const std::vector<DV> &vals) = 0;
     // real reader over exactly [p, p+n): decoded values, reader position afterwards
@@ -393,6 +435,33 @@ struct stack_iface
 };
 stack_iface &stack_a();
 stack_iface &stack_s();
+
+// ---- extra entry points of the archive stack (a.inc part 1)
+// payload written with dump(const char*, uint16_t) [kind c], dump(igris::buffer) [w] or dump(std::string_view) [v],
+// then a value of type `desc`; read back with load(char*, maxsz) [c] / load(writable_buffer&) [w, v] into an exactly
+// sized destination of `cap` bytes, then the value.
+struct cap_out
+{
+    bytes enc;
+    std::string got;   // what the capped load stored
+    bool dst_clean = true; // destination bytes beyond `got` untouched
+    DV val;
+    size_t consumed = 0;
+};
+cap_out a_capped(char kind, size_t cap, const std::string &payload, const std::string &desc, const DV &v, const bytes &rest);
+// binary_buffer_writer over an exactly sized buffer (size = what binary_string_writer produced)
+bytes a_binwriter(const std::string &desc, const DV &v, size_t size);
+bool a_binwriter_has(const std::string &desc);
+// struct { T xs[N]; reflect(r) { r & igris::archive::data<T>(xs, N); } }: desc "sc:N"; encode / decode (into a value-initialised array)
+bool a_data_has(const std::string &key);
+std::vector<std::string> a_data_keys();
+bytes a_data_enc(const std::string &key, const std::vector<uint64_t> &xs);
+std::vector<uint64_t> a_data_dec(const std::string &key, const uint8_t *p, size_t n, size_t &consumed);
+// archive reader on a (possibly truncated) input, no reference pre-check: used by the finding probes only
+DV a_decode_raw(const std::string &desc, const uint8_t *p, size_t n, size_t &consumed);
+// ---- extra entry points of the serializer stack (s.inc part 1)
+// storage.dumps(bytes) into a string_storage, then loads(n) for each n on a deserialize_buffer_storage over it
+std::vector<std::string> s_loads(const std::string &data, const std::vector<size_t> &ns, size_t &avail_after);
 
 // registry used by both TUs
 template <class Writer, class Reader> struct type_h
